@@ -3,7 +3,7 @@ import PnVerif.Model.Merge
 /-
   C02 correspondence driver.
 
-    c02drv nb <rank>   : stdin = the op script of harness/c02_nb.c, stdout = the lines that rank
+    c02drv nb <rank> [flags] : stdin = the op script of harness/c02_nb.c, stdout = the lines that rank
                          prints which are determined by the queue model (everything except the
                          "D …" oracle lines)
     c02drv unit        : stdin = the requests of harness/c02_unit.c (merge_requests /
@@ -39,6 +39,7 @@ structure St where
   hs : Array H := Array.replicate 128 {}
   dead : Bool := false
   single : Bool := true
+  V : Variant := {}
 
 def St.dump (st : St) (nc : NC) : String := C02Drv.dump nc st.single
 
@@ -87,7 +88,7 @@ def markSpecDone (st : St) (hsl : List Nat) : St :=
 
 def doWait (st : St) (num : Int) (ids : List Int) (hasst : Bool) : St × WaitRes × Option (List Int) × Int :=
   let sts := if hasst then some (ids.map (fun _ => (777 : Int))) else none
-  let r := wait st.nc num ids sts
+  let r := wait st.nc num ids sts st.V
   let (s2, e2) := if r.err == 0 then applyErange st r.doneGet r.st r.err else (r.st, r.err)
   -- `state` is the SPEC's notion (exp lists of the script), exactly as in the C harness
   ({ st with nc := r.nc }, r, s2, e2)
@@ -219,5 +220,11 @@ def main (args : List String) : IO Unit := do
   let inp ← IO.getStdin
   match args with
   | ["nb", r] => C02Drv.loopNb inp out (r.toNat?.getD 0) {}
+  | ["nb", r, flags] =>
+    -- flags: n = req_commit scans all leads for numrecs (F21 repaired), r = refusal clears the marks (F19 repaired),
+    --        s = shortcuts compare req_ids with the queue (F4 repaired); "-" = code as found
+    let V : ReqQueue.Variant := { numrecsAllLeads := flags.contains 'n', clearOnRefusal := flags.contains 'r',
+                                  shortcutChecksIds := flags.contains 's' }
+    C02Drv.loopNb inp out (r.toNat?.getD 0) { V := V }
   | ["unit"] => C02Drv.loopUnit inp out
   | _ => IO.eprintln "usage: c02drv nb <rank> | unit"
